@@ -11,6 +11,17 @@ T_PATHS = 'bounded-exhaustive exploration of the row transition system (all row 
 T_HIST = 'explicit-state BFS over call histories on live objects with reflection snapshots'
 
 CHECKS = {
+    'C10': ("Pitch level, exhaustive: 7 clefs x 5 octave marks x 7 letters x 5 accidentals x octaves 0..8 through ClefFactory/pitch_to_gkern_string (G2 identity, one-step translation "
+            "chained over the whole range, bottom line -> 'e', accidental carried over, octave marks irrelevant, bottom line = the staff's musical bottom line) and 7x3-5x8 one-note "
+            "document grids for all accidental spellings incl. natural and display suffix. Document level: every enabled row sequence to depth 3-5 with single-column clef "
+            "changes, splits, joins, chords and rests; each agnostic cell is compared with the model's clef in force for that cell.",
+            'Trusted: kv/pitchref.py staff-step arithmetic; kv/model.py signature context (inherited through parent links). Five clefs have a non-musical bottom line pinned by the tests: known findings.',
+            T_GRID + ' + ' + T_PATHS, 'DESIGN.md §3 C10'),
+    'C13': ("15-88 documents (>=2 spines, >=2 types, split, clef) x every subset of spine ids x every subset of present types x 23 category selections x 6 encodings, each compared "
+            "with the composition of the three reference transforms (which commute by construction), plus one explicit-default spelling of an option per case that must be "
+            "string-identical to omitting it.",
+            'Trusted: kv/model.py reference exporter, kv/pitchref.py; leniencies of DESIGN §2.1.',
+            'exhaustive enumeration of the option product on a document family against a reference exporter', 'DESIGN.md §3 C13'),
     'C04': ("For every document of a bounded space (all row sequences to depth 3/4 after a clef row, 9-20 header configurations, <=1/2 deviations of a backbone) and each of 8 category "
             "selections that keep durations or pitches, all six encodings are exported and related: plain == extended minus separators (three pairs), basic == full with the signifier "
             "group removed note by note (chord sizes from the model), headers == '**'+prefix+type, non-note cells identical in all six.",
